@@ -71,4 +71,47 @@ var mfiles = []*MFile{
 			{Func: "typed.BytesRef.UpdateString", MemParam: true},
 		},
 	},
+	{
+		// messages.go, tracing.go (Span codec), frame.go (FrameHeader codec): the read/write methods of
+		// every message, INCLUDING the loops over transport headers and init params (counted
+		// for-loops => go_for, range over a map => go_range over its entries in iteration order).
+		// Not translated (hand model Model/Messages.v, tied by correspondence): Frame.write / read /
+		// ReadBody / ReadIn / WriteOut (interface values, io.Reader / io.Writer).
+		Name:    "GenMessages",
+		Imports: []string{"Gen.GenTypedBuf"},
+		Structs: []*StructRep{
+			{Type: "tchannel.Span"},
+			{Type: "tchannel.noBodyMsg"},
+			{Type: "tchannel.initMessage"},
+			{Type: "tchannel.callReq"},
+			{Type: "tchannel.callRes"},
+			{Type: "tchannel.callResContinue"},
+			{Type: "tchannel.errorMessage"},
+			{Type: "tchannel.cancelMessage"},
+			{Type: "tchannel.FrameHeader"},
+		},
+		Targets: []*MTarget{
+			mt("tchannel.Span.read"),
+			mt("tchannel.Span.write"),
+			mt("tchannel.TransportHeaderName.String"),
+			mt("tchannel.transportHeaders.read"),
+			mt("tchannel.transportHeaders.write"),
+			mt("tchannel.noBodyMsg.read"),
+			mt("tchannel.noBodyMsg.write"),
+			mt("tchannel.initMessage.read"),
+			mt("tchannel.initMessage.write"),
+			mt("tchannel.callReq.read"),
+			mt("tchannel.callReq.write"),
+			mt("tchannel.callRes.read"),
+			mt("tchannel.callRes.write"),
+			mt("tchannel.callResContinue.read"),
+			mt("tchannel.callResContinue.write"),
+			mt("tchannel.errorMessage.read"),
+			mt("tchannel.errorMessage.write"),
+			mt("tchannel.cancelMessage.read"),
+			mt("tchannel.cancelMessage.write"),
+			mt("tchannel.FrameHeader.read"),
+			mt("tchannel.FrameHeader.write"),
+		},
+	},
 }
